@@ -50,3 +50,122 @@ Theorem C01_K_preserved_partial :
               (K_safe_op o = true \/ (forall s', step_op o s <> Ok s')) ->
               K_b (apply_op s o) = true.
 Proof. exact K_preserved_partial. Qed.
+
+(* ------------------------------------------------------------------------------------------ *)
+(* Abstract engine (model/Engine.v): static-DAG fragment                                       *)
+(* ------------------------------------------------------------------------------------------ *)
+From SV Require Import model.Engine proofs.EngineProofs.
+
+(* The full statement, for ANY incremental build engine: after any sequence of worlds (a world =
+   all source files including plan and step scripts, and the tracked environment), building the
+   last world on top of what the earlier builds left is equivalent to building it on nothing.
+   C01 is [C01_full_for] at the real engine: worlds include the plan scripts, the workflow
+   (steps, declarations, sub-plans, optional steps, amended inputs and outputs) is itself computed
+   by running plan steps, a plan edit drops / re-adds / redefines steps (recycling of detached
+   nodes), [equiv] = same active steps, files, states and relations, same bytes of every declared
+   output, same return code, and [build] ranges over restart and watch-mode rebuilds and over all
+   schedules.  No Gallina model of that engine exists here; model/Graph.v is its stored-workflow
+   part, where the necessary invariant K is refuted above (D4), and harness/p_c01.py compares the
+   real engine with itself from scratch on generated histories. *)
+Definition C01_full_for {world state : Type} (empty : state) (build : world -> state -> state)
+           (equiv : state -> state -> Prop) : Prop :=
+  forall (ws : list world) (w : world),
+    equiv (build w (fold_left (fun s x => build x s) ws empty)) (build w empty).
+
+Section StaticDag.
+  (* the programs run by the steps: any deterministic functions of the declared inputs and of
+     the tracked variables *)
+  Variable run : N -> list (option N) -> list (option N) -> N -> N.
+
+  (* Skipping is sound: when the recorded trace of a step is valid and its input and output
+     ingredients equal the present ones, running the step would leave every file as it is. *)
+  Theorem C01_skip_sound :
+    forall (s : step) (y : sys) (t : trace),
+      NoDup (out s) -> (forall p, In p (inp s) -> ~ In p (out s)) ->
+      tr y (sid s) = Some t -> trace_valid run s t -> can_skip s y = true ->
+      forall p, fs (do_run run s y) p = fs (do_skip s y) p.
+  Proof. exact (skip_sound run). Qed.
+
+  (* A build re-establishes the invariant (valid traces, K = no stale success, closure) and ends
+     in a finished state without touching sources or environment. *)
+  Theorem C01_build_establishes_K :
+    forall (proj : project) (y : sys),
+      wf proj = true -> Pre run proj y ->
+      Pre run proj (build run proj y) /\ K proj (build run proj y) /\
+      Finished run proj (build run proj y) /\ same_world proj y (build run proj y).
+  Proof. intros proj y H. apply build_establishes_K. apply wf_WF. exact H. Qed.
+
+  (* Pending propagation keeps the invariant: after any edit of a source or a variable every
+     step that is still SUCCEEDED has an unchanged trace, inputs, outputs and producers. *)
+  Theorem C01_edit_preserves_K :
+    forall (proj : project) (y : sys) (e : edit),
+      wf proj = true -> Pre run proj y -> Pre run proj (apply_edit proj y e).
+  Proof. intros proj y e H. apply apply_edit_Pre. apply wf_WF. exact H. Qed.
+
+  (* Watch flavour (edits as events): for every static-DAG project, every initial source tree and
+     environment and every finite history of edits interleaved with builds, K holds at the end
+     and the final state has the step states and the output contents of a from-scratch build of
+     the final sources.  No bound on the size of the project or of the history. *)
+  Theorem C01_scratch_equiv_static_dag_partial :
+    forall (proj : project),
+      wf proj = true ->
+      forall (hist : list (list edit)) (src env : N -> option N),
+        let y := run_history run proj hist (scratch run proj src env) in
+        K proj y /\ same_result proj y (scratch run proj (fs y) (ev y)).
+  Proof. exact (K_implies_scratch_equiv_static_dag run). Qed.
+
+  (* Restart flavour (absolute worlds, startup rescan): the full statement holds for the engine
+     of model/Engine.v on every static DAG. *)
+  Theorem C01_full_for_static_dag_partial :
+    forall (proj : project),
+      wf proj = true ->
+      C01_full_for empty_sys (build_world run proj) (same_result proj).
+  Proof. intros proj H ws w. apply restart_equiv_scratch_static_dag. exact H. Qed.
+End StaticDag.
+
+(* What the two static-DAG theorems leave out of C01: (1) dynamic workflows: steps, static
+   declarations and globs created by plan steps, sub-plans, so that the project itself changes
+   during and between builds; plan edits that drop, re-add or redefine steps and the recycling
+   of detached nodes (where D4 and D9 live); (2) amended inputs, outputs and variables, deferred
+   steps; (3) optional steps, targets and the cleanup pass; (4) failing steps, draining,
+   interrupted builds; (5) concurrent schedules (the engine processes one topological order;
+   C02); (6) the stored value a variable is compared with at startup (finding F6: the code
+   compares with the value recorded at declaration time, the model with the last one seen). *)
+
+(* The hypotheses are satisfiable: a diamond  1 -> A -> 10 -> {B, C} -> {11, 12} -> D -> 13
+   with a second source 2 read by C and a variable 7 tracked by B. *)
+Definition diamond : project :=
+  [ mkStep 100 [1] [] [10]; mkStep 101 [10] [7] [11]; mkStep 102 [10; 2] [] [12];
+    mkStep 103 [11; 12] [] [13] ].
+Definition sum_run (id : N) (ins : list (option N)) (envs : list (option N)) (p : N) : N :=
+  fold_left (fun a o => match o with Some c => a * 31 + c + 1 | None => a * 31 end) (ins ++ envs) (id + p).
+Definition src0 : N -> option N := fun p => if p =? 1 then Some 5 else if p =? 2 then Some 6 else None.
+Definition env0 : N -> option N := fun n => if n =? 7 then Some 3 else None.
+
+Example C01_diamond_wf : wf diamond = true.
+Proof. vm_compute. reflexivity. Qed.
+
+(* a history on the diamond: change source 2 (only C and D rerun, A and B are kept), then change
+   variable 7 (only B and D), then restore source 2; the log of each build lists (step, ran?) *)
+Example C01_diamond_history_logs :
+  let y0 := scratch sum_run diamond src0 env0 in
+  let y1e := apply_edit diamond y0 (EWrite 2 (Some 9)) in
+  let y1 := build sum_run diamond y1e in
+  let y2e := apply_edit diamond y1 (ESetEnv 7 (Some 4)) in
+  build_log sum_run diamond diamond (init diamond src0 env0)
+    = [(100, true); (101, true); (102, true); (103, true)] /\
+  build_log sum_run diamond diamond y1e = [(102, true); (103, true)] /\
+  build_log sum_run diamond diamond y2e = [(101, true); (103, true)] /\
+  map (stt y1) [100; 101; 102; 103] = [Succeeded; Succeeded; Succeeded; Succeeded].
+Proof. vm_compute. repeat split; reflexivity. Qed.
+
+(* a step is skipped when its inputs come back: delete source 2 and build (C and D stay PENDING),
+   put the old content back: C is hash-checked and skipped, D likewise *)
+Example C01_diamond_skip :
+  let y0 := scratch sum_run diamond src0 env0 in
+  let y1 := build sum_run diamond (apply_edit diamond y0 (EWrite 2 None)) in
+  let y2e := apply_edit diamond y1 (EWrite 2 (Some 6)) in
+  map (stt y1) [100; 101; 102; 103] = [Succeeded; Succeeded; Pending; Pending] /\
+  build_log sum_run diamond diamond y2e = [(102, false); (103, false)] /\
+  map (fs (build sum_run diamond y2e)) [10; 11; 12; 13] = map (fs y0) [10; 11; 12; 13].
+Proof. vm_compute. repeat split; reflexivity. Qed.
